@@ -29,7 +29,8 @@ def crit_class(lb, q):
         return "empty-criteria"
     if keys in sels:
         hit = any(all(h.get(k) == v for k, v in q["c"].items()) for h in lb["hosts"])
-        return "selector-keys:hosts-match" if hit else "selector-keys:no-host-matches"
+        wide = "wide-selector-%d-keys:" % len(keys) if len(keys) >= 4 else "selector-keys:"
+        return wide + ("hosts-match" if hit else "no-host-matches")
     for s in sels:
         if keys < s:
             pref = sorted(s)[:len(keys)] == sorted(keys)
@@ -78,6 +79,22 @@ def collision_perm(ln):
             c["perm"] = list(perm)
             return json.dumps(c, separators=(",", ":"))
     return None
+
+
+def wide_pick(cfgs, rng, nwide, nrest):
+    """Wide-selector universe (5 keys, hosts agree on the first three): VERIF_SEED sample, weighted towards configurations
+    with a selector of >= 4 keys and hosts that differ on one of its last keys."""
+    def interesting(ln):
+        c = json.loads(ln)
+        hs = [h for h in c["hosts"] if isinstance(h, dict)]
+        for s in c["sel"]:
+            if len(s) >= 4 and any(len({h.get(k) for h in hs if all(x in h for x in s)}) >= 2 for k in s[3:]):
+                return True
+        return False
+    a = [c for c in cfgs if interesting(c)]
+    sa = set(a)
+    b = [c for c in cfgs if c not in sa]
+    return rng.sample(a, min(nwide, len(a))) + rng.sample(b, min(nrest, len(b)))
 
 
 def gen_cases(ctx, cfg, timeout=900):
@@ -144,9 +161,9 @@ def run(ctx):
 
     # ---------- 1. design level: both tries = declarative candidates, for every configuration and criteria map
     universes = [("Subset.cfg", "Subset_cases.cfg"), ("Subset_empty.cfg", "Subset_empty_cases.cfg"),
-                 (None, "Subset_thorough_cases.cfg")] if q else \
+                 (None, "Subset_thorough_cases.cfg"), ("Subset_wide.cfg", "Subset_wide_cases.cfg")] if q else \
                 [("Subset_thorough.cfg", "Subset_thorough_cases.cfg"), ("Subset_empty.cfg", "Subset_empty_cases.cfg"),
-                 ("Subset_3key.cfg", "Subset_3key_cases.cfg")]
+                 ("Subset_3key.cfg", "Subset_3key_cases.cfg"), ("Subset_wide_thorough.cfg", "Subset_wide_thorough_cases.cfg")]
     mc_err = []
 
     def model_check():
@@ -197,8 +214,13 @@ def replay(ctx, q, rng, par, universes):
                 coll = [x for x in (collision_perm(c) for c in four) if x]
                 pick = rng.sample(coll, min(150, len(coll))) + rng.sample(four, min(150, len(four)))
                 ctx.cov["cache_collision_configs"] = len(coll)
+            elif cc == "Subset_wide_cases.cfg":
+                pick = wide_pick(cfgs, rng, 250, 150)
             else:
                 pick = rng.sample(cfgs, min(500, len(cfgs)))
+        elif cc == "Subset_wide_thorough_cases.cfg":
+            pick = wide_pick(cfgs, rng, 1500, 1000)
+            sampled = True
         elif cc == "Subset_thorough_cases.cfg":
             # every configuration with <= 2 hosts, every 4-host one that can collide in the index cache, VERIF_SEED sample of the rest
             keep = [c for c in cfgs if nhosts(c) <= 2]
@@ -208,7 +230,7 @@ def replay(ctx, q, rng, par, universes):
             pick = keep + coll + rng.sample(rest, min(4000, len(rest)))
             sampled = True
         else:
-            cap = {"Subset_empty_cases.cfg": 3000, "Subset_3key_cases.cfg": 1500}[cc]
+            cap = {"Subset_empty_cases.cfg": 3000, "Subset_3key_cases.cfg": 1200}[cc]
             pick = cfgs
             if len(cfgs) > cap:
                 pick = rng.sample(cfgs, cap)
